@@ -145,7 +145,12 @@ func hexs(b []byte) string {
 var hugeVarints = [][]byte{{0xff, 0xff, 0xff, 0xff, 0x0f}, {0xff, 0xff, 0xff, 0xff, 0xff, 0xff, 0xff, 0xff, 0xff, 0x01}, {0x80, 0x80, 0x80, 0x80, 0x08}, {0xff, 0xff, 0xff, 0xff, 0xff, 0xff, 0xff, 0xff, 0xff, 0xff, 0x01}, {0x80}}
 
 // mutations of one seed: truncations, byte substitutions (all 256 in thorough, a boundary set in quick), huge varints spliced in.
-func mutations(seed []byte, thorough bool, visit func(m []byte, note string)) {
+func mutations(seed []byte, thorough bool, visit0 func(m []byte, note string)) {
+	// every input is handed over in a buffer of exactly its length: a read beyond the end of the message must fail as a slice
+	// bound, not succeed silently inside spare capacity (a truncated seed would otherwise still carry the cut-off bytes)
+	visit := func(m []byte, note string) {
+		visit0(append(make([]byte, 0, len(m)), m...), note)
+	}
 	for i := 0; i <= len(seed); i++ {
 		visit(seed[:i], fmt.Sprintf("truncated to %d", i))
 	}
@@ -175,7 +180,7 @@ func mutations(seed []byte, thorough bool, visit func(m []byte, note string)) {
 func shortStrings(maxLen int, visit func(b []byte)) {
 	var rec func(p []byte)
 	rec = func(p []byte) {
-		visit(p)
+		visit(append(make([]byte, 0, len(p)), p...))
 		if len(p) == maxLen {
 			return
 		}
